@@ -67,7 +67,10 @@ def ob_state(kinds, names, sym):
         got = refs.ref_matrix(res.vec, B)
         ref = kron_all([dms[i] for i in order])
         out = [Eq("density matrix == kron of factors in ascending name order", got, ref, 1e-8),
+               Eq("the result's own to_density_matrix() (its composite system's basis) == the same Kronecker product", res.to_density_matrix(), ref, 1e-8),
                Holds("composite system sorted by name", [e.name for e in res.composite_system.elemental_systems] == sorted(names))]
+        Bl = qenv.dense_basis(res.composite_system)
+        out.append(Eq("basis of the result's composite system == product basis in ascending name order", np.array(Bl, dtype=object), np.array(B, dtype=object), 1e-9))
         if k == 3 and sym != "all":
             # grouping: (a x b) x c == a x (b x c)
             alt = tensor_product(sts[0], tensor_product(sts[1], sts[2]))
